@@ -147,6 +147,7 @@ type Gen struct {
 	globalAx []string
 	privObjs [][]target
 	lastPrecise map[string][]string
+	lastFreshOnly map[string]bool // components whose every write inside the last analysed loop body goes to an object allocated in that body
 }
 
 func newGen(w *World, fn *ssa.Function, c *Contract) *Gen {
@@ -559,8 +560,9 @@ func (g *Gen) subRef(st types.Type, i int, r string) string {
 	if !g.prelSeen[key] {
 		g.prelSeen[key] = true
 		g.needFldTag()
-		g.assumeGlobal(fmt.Sprintf("(= (fldtag %s) %d)", t, fldCode(fn)))
-		g.assumeGlobal(fmt.Sprintf("(and (= (|%s_inv| %s) %s) (=> (< %s %s) (and (< 0 %s) (< %s %s))) (=> (>= %s %s) (>= %s %s)) (=> (not (= %s 0)) (not (= %s 0))))", fn, t, r, r, refBound, t, t, refBound, r, refBound, t, refBound, r, t))
+		// the embedded object of nil is nil (taking its address panics at run time); every other object's
+		// embedded object is a distinct non-nil reference of the same generation (old / allocated)
+		g.assumeGlobal(fmt.Sprintf("(ite (= %s 0) (= %s 0) (and (= (fldtag %s) %d) (= (|%s_inv| %s) %s) (=> (< %s %s) (and (< 0 %s) (< %s %s))) (=> (>= %s %s) (>= %s %s)) (not (= %s 0))))", r, t, t, fldCode(fn), fn, t, r, r, refBound, t, t, refBound, r, refBound, t, refBound, t))
 	}
 	return t
 }
@@ -1514,9 +1516,15 @@ func (g *Gen) loopHead(b *ssa.BasicBlock, k int, li *loopInfo) {
 				g.cur[n] = g.define("H_"+n+"@loop", s, h)
 				continue
 			}
+			prev := g.heapGet(n)
 			nv := g.fresh("H_"+n+"@loop", s)
 			g.pristine[nv] = true
 			g.cur[n] = nv
+			if g.lastFreshOnly[n] && strings.HasPrefix(s, "(Array Int ") {
+				// every write to this component in the loop body goes to an object allocated in the body:
+				// the objects that existed before the loop keep their contents
+				g.assumeAlways(fmt.Sprintf("(forall ((r Int)) (! (=> (and (<= 0 r) (< r %s)) (= (select %s r) (select %s r))) :pattern ((select %s r))))", refBound, nv, prev, nv))
+			}
 		}
 	}
 	env := g.curEnv()
@@ -1659,12 +1667,22 @@ func (g *Gen) loopEnv(h, pred *ssa.BasicBlock) *TEnv {
 func (g *Gen) modifiedIn(body map[*ssa.BasicBlock]bool) map[string]bool {
 	m := map[string]bool{}
 	precise := map[string][]string{} // component -> references written by stores whose object is loop-invariant
+	oldw := map[string]bool{} // component possibly written on an object that existed before the loop
 	defer func() {
 		g.lastPrecise = map[string][]string{}
 		for c, refs := range precise {
+			oldw[c] = true
 			if !m[c] {
 				g.lastPrecise[c] = refs
 				m[c] = true
+			}
+		}
+		g.lastFreshOnly = map[string]bool{}
+		if !m["*"] {
+			for c := range m {
+				if !oldw[c] && !strings.HasPrefix(c, "GH_") && !strings.HasPrefix(c, "L_") {
+					g.lastFreshOnly[c] = true
+				}
 			}
 		}
 	}()
@@ -1692,12 +1710,17 @@ func (g *Gen) modifiedIn(body map[*ssa.BasicBlock]bool) map[string]bool {
 							continue
 						}
 					}
+					fresh := depth == 0 && rootIsBodyAlloc(x.Addr, body)
 					for _, n := range g.compsOfAddr(x.Addr) {
 						m[n] = true
+						if !fresh {
+							oldw[n] = true
+						}
 					}
 				case *ssa.MapUpdate:
 					for _, n := range g.mapComps(x.Map.Type()) {
 						m[n] = true
+						oldw[n] = true
 					}
 				case ssa.CallInstruction:
 					cc := x.Common()
@@ -1707,10 +1730,12 @@ func (g *Gen) modifiedIn(body map[*ssa.BasicBlock]bool) map[string]bool {
 							if st, ok := cc.Args[0].Type().Underlying().(*types.Slice); ok {
 								c, _ := g.memComp(st.Elem())
 								m[c] = true
+								oldw[c] = true
 							}
 						case "delete":
 							for _, n := range g.mapComps(cc.Args[0].Type()) {
 								m[n] = true
+								oldw[n] = true
 							}
 						}
 						continue
@@ -1726,8 +1751,16 @@ func (g *Gen) modifiedIn(body map[*ssa.BasicBlock]bool) map[string]bool {
 						if ct.AssignsAll {
 							all(false)
 						}
-						for _, n := range g.assignComps(ct) {
-							m[n] = true
+						for _, a := range ct.Assigns {
+							one := *ct
+							one.Assigns = []*Expr{a}
+							fresh := depth == 0 && g.assignRootIsBodyAlloc(a, callee, cc, body)
+							for _, n := range g.assignComps(&one) {
+								m[n] = true
+								if !fresh {
+									oldw[n] = true
+								}
+							}
 						}
 						continue
 					}
@@ -1749,6 +1782,11 @@ func (g *Gen) modifiedIn(body map[*ssa.BasicBlock]bool) map[string]bool {
 	}
 	sort.Slice(blocks, func(i, j int) bool { return blocks[i].Index < blocks[j].Index })
 	visitFn(g.fr.fn, blocks, 0)
+	if m["*"] {
+		for n := range m {
+			oldw[n] = true
+		}
+	}
 	// ghost state updated by `ghost at` clauses: conservatively modified by every loop
 	for _, n := range g.ghostAtComps() {
 		m[n] = true
@@ -1769,6 +1807,59 @@ func (g *Gen) modifiedIn(body map[*ssa.BasicBlock]bool) map[string]bool {
 		}
 	}
 	return m
+}
+
+// the object written through addr is one allocated (escaping Alloc) inside the loop body itself
+func rootIsBodyAlloc(a ssa.Value, body map[*ssa.BasicBlock]bool) bool {
+	for i := 0; i < 8; i++ {
+		switch x := a.(type) {
+		case *ssa.Alloc:
+			return body[x.Block()] && allocEscapes(x)
+		case *ssa.FieldAddr:
+			a = x.X
+		case *ssa.IndexAddr:
+			if _, ok := x.X.Type().Underlying().(*types.Pointer); !ok {
+				return false
+			}
+			a = x.X
+		default:
+			return false
+		}
+	}
+	return false
+}
+
+// an assigns target `p`, `*p` or `p.f` of a callee's contract, where the argument passed for p at this call
+// is an object allocated inside the loop body
+func (g *Gen) assignRootIsBodyAlloc(a *Expr, callee *ssa.Function, cc *ssa.CallCommon, body map[*ssa.BasicBlock]bool) bool {
+	if callee == nil || cc.IsInvoke() {
+		return false
+	}
+	root := a
+	switch a.Op {
+	case "sel":
+		root = a.Args[0]
+	case "un":
+		if a.Val != "*" {
+			return false
+		}
+		root = a.Args[0]
+	case "id":
+	default:
+		return false
+	}
+	if root.Op != "id" {
+		return false
+	}
+	for i, p := range callee.Params {
+		if p.Name() == root.Val && i < len(cc.Args) {
+			if _, ok := p.Type().Underlying().(*types.Pointer); !ok {
+				return false
+			}
+			return rootIsBodyAlloc(cc.Args[i], body)
+		}
+	}
+	return false
 }
 
 // static guess of the components a store through addr touches
